@@ -607,7 +607,21 @@ func (pr *progRender) render() string {
 	if s.Kind == "parallel" {
 		dir = "Parallel"
 	}
-	x.f("err = %s.%s(%s,", n.cff, dir, ctxE)
+	// the statement that holds the directive call (line layout is the same for all)
+	stPre, stPost := "err = ", ""
+	switch s.Stmt {
+	case "ifinit":
+		stPre, stPost = "if dErr := ", "; dErr != nil {\n\terr = dErr\n}"
+	case "switch":
+		stPre, stPost = "switch dErr := ", "; {\ncase dErr != nil:\n\terr = dErr\n}"
+	case "arg":
+		stPre, stPost = "err = func(e error) error { return e }(", ")"
+	case "field":
+		stPre, stPost = "err = struct{ e error }{e: ", "}.e"
+	case "tuple":
+		stPre, stPost = "err, _ = ", ", 0"
+	}
+	x.f("%s%s.%s(%s,", stPre, n.cff, dir, ctxE)
 	for _, r := range rendered {
 		x.f("\t%s,", r)
 	}
@@ -616,7 +630,13 @@ func (pr *progRender) render() string {
 		x.f("\t%s.Params(xv),", n.cff)
 		x.f("\t%s.Task(func(x X) { _ = x }, %s.Invoke(true)),", n.cff, n.cff)
 	}
-	x.f(")")
+	for i, l := range strings.Split(")"+stPost, "\n") {
+		if i == 0 {
+			x.f("%s", l)
+		} else {
+			x.f("%s", l)
+		}
+	}
 	for _, r := range resultReads {
 		x.f("%s", r)
 	}
